@@ -390,10 +390,8 @@ def r13_4(chk, cr, q):
            expected="self.to_fractional(positions) / size, or to_fractional of a supercell built from self.unit_cell's own vectors", found=why)
     chk.ob("R13.4", CR, q, "the elements handed to the new asymmetric unit come from the same stacking", "$asym_nums" in asym.as_atom()[2][0].key(),
            fingerprint="elements", found=str(asym.as_atom()[2][0])[:120])
-    ret = None
-    for e2 in ev.events:
-        if e2.kind == "assign" and e2.name == "new_crystal":
-            ret = e2.value
+    # the returned value: the constructor call itself, or the local object it was bound to (which may get its title set afterwards)
+    ret = ev.returns[-1].value if ev.returns else None
     ra = ret.as_atom() if ret is not None else None
     if ra and ra[0] == "obj":
         ra = ra[3].as_atom()
